@@ -23,9 +23,29 @@ HEXFNS = {3: "rgb_from_hex_4bit", 6: "rgb_from_hex_8bit", 12: "rgb_from_hex_16bi
           4: "rgba_from_hex_4bit", 8: "rgba_from_hex_8bit", 16: "rgba_from_hex_16bit", 32: "rgba_from_hex_32bit"}
 
 
-def parse_fns(ty, allowed, upto):
+def parse_fns(ty, allowed, hi, lo=0):
+    """The impl plus the hex.rs helpers of the forms whose length lies in the harness's length range."""
     ty = ty.replace("Std", "S")
-    return [f"impl FromStr for palette::rgb::{ty}"] + [f"palette::rgb::hex::{HEXFNS[n]}" for n in allowed if n + 1 <= upto]
+    return [f"impl FromStr for palette::rgb::{ty}"] + [f"palette::rgb::hex::{HEXFNS[n]}" for n in allowed if lo - 1 <= n <= hi]
+
+
+def tidy(body):
+    """Re-indents a generated harness body by bracket depth (the bodies are assembled from multi-line pieces)."""
+    out, depth = [], 0
+    for line in body.strip().splitlines():
+        t = line.strip()
+        if not t:
+            continue
+        d = depth - (1 if t[0] in "})]" else 0)
+        out.append("    " * max(d, 0) + t)
+        code = t.split("//")[0] if not t.startswith("assert") else t
+        depth += sum(code.count(c) for c in "{([") - sum(code.count(c) for c in "})]")
+    return "\n".join(out)
+
+
+class Out12(Out):
+    def harness(self, name, doc, body, *a, **k):
+        super().harness(name, doc, tidy(body), *a, **k)
 
 
 def allowed_txt(allowed):
@@ -112,7 +132,7 @@ def gen_parse(o, probe=False):
                 kani::cover!(want.is_some());
                 check_parse::<{ty}, {N}>(&buf, len, want, {value});
                 """,
-                parse_fns(ty, allowed, N),
+                parse_fns(ty, allowed, hi, lo),
                 f"all 128^n ASCII byte strings of every length n in {lo}..={hi} (symbolic length, symbolic bytes)",
                 unwind=unwind_for(allowed, lo, hi), thorough=(lo > 0 and ("f64" in ty or ("u32" in ty and hi > 17 - (ncomp(allowed) == 3) * 4))))
         # ---- family 2: every string of at most K Unicode scalar values ----------------------------------------------
@@ -121,16 +141,17 @@ def gen_parse(o, probe=False):
 
         def unicode(name, NB, cap, thorough):
             push = "\n".join(f"if {i} < k {{ push_char(&mut buf, &mut len, c{i}); }}" for i in range(K))
-            capl = ""
+            tot = " + ".join(f"(if {i} < k {{ c{i}.len_utf8() }} else {{ 0 }})" for i in range(K))
+            capl = f"let total = {tot};\n// at least one multi-byte character (ASCII-only strings: c12_parse_ascii_*)\nkani::assume(total > k);"
             if cap:
-                tot = " + ".join(f"(if {i} < k {{ c{i}.len_utf8() }} else {{ 0 }})" for i in range(K))
-                capl = f"kani::assume({tot} <= {cap});"
+                capl += f"\nkani::assume(total <= {cap});"
             o.harness(
                 name,
                 f"strict and total parse of {tys} on multi-byte input: for EVERY string of at most {K} Unicode scalar values "
                 + (f"and at most {cap} bytes " if cap else "")
-                + f"(each a symbolic `char`, encoded with char::encode_utf8, so 1- to 4-byte sequences at every position; valid UTF-8 by "
-                f"construction), `parse` does not panic, returns Ok only for {syntax}, Err only otherwise, {val_txt}",
+                + f"that contains at least one multi-byte character (each symbol a symbolic `char`, encoded with char::encode_utf8, so 1- to 4-byte "
+                f"sequences at every position; valid UTF-8 by construction; the ASCII-only strings are the c12_parse_ascii_* obligations), `parse` does "
+                f"not panic and returns Err (the harness asserts the general contract: Ok only for {syntax}, Err only otherwise)",
                 f"""
                 {decl}
                 let k: usize = kani::any();
@@ -145,7 +166,7 @@ def gen_parse(o, probe=False):
                 check_parse::<{ty}, {NB}>(&buf, len, want, {value});
                 """,
                 parse_fns(ty, allowed, cap or NB),
-                f"all strings of k <= {K} Unicode scalar values (every `char` at every position)"
+                f"all strings of k <= {K} Unicode scalar values (every `char` at every position) with at least one non-ASCII char"
                 + (f" whose UTF-8 encoding has at most {cap} bytes" if cap else f", up to {NB} bytes"),
                 unwind=unwind_for(allowed, 0, cap or NB), thorough=thorough)
 
@@ -590,7 +611,7 @@ fn words_24(buf: &[u8; 24], len: usize) -> [u64; 3] {{
 
 
 def gen():
-    o = Out("c12_gen.rs", "use core::marker::PhantomData;\nuse palette::cast::Packed;\nuse palette::luma::channels::{Al, La};\nuse palette::luma::{Luma, Lumaa};\n"
+    o = Out12("c12_gen.rs", "use core::marker::PhantomData;\nuse palette::cast::Packed;\nuse palette::luma::channels::{Al, La};\nuse palette::luma::{Luma, Lumaa};\n"
             "use palette::named;\nuse palette::rgb::channels::{Abgr, Argb, Bgra, Rgba as RgbaOrder};\nuse palette::rgb::{Rgb, Rgba};\nuse palette::Srgb;\n"
             "use crate::c12_support::*;\n")
     gen_parse(o)
